@@ -4,3 +4,6 @@ import MiniconfVerif.Props.C02
 #print axioms MiniconfVerif.C02.lookup_before_arm
 #print axioms MiniconfVerif.C02.absent_variant_before_accessor
 #print axioms MiniconfVerif.C02.flatten_adds_no_depth
+#print axioms MiniconfVerif.C02.one_walk
+#print axioms MiniconfVerif.C02.operations_agree
+#print axioms MiniconfVerif.C02.indices_in_range
